@@ -24,8 +24,9 @@ VARIABLES tid,     \* index of the trace being replayed
           fails,   \* set of <<clause, event index>> of failed property clauses (first occurrence per clause)
           wits,    \* set of witness tags seen
           drift,   \* set of <<event index, kind, detail-set>>
+          obs,     \* observer state maintained from the log only (cycle-router decision counters)
           out      \* verdicts of the finished traces
-vars == <<tid, l, S, fails, wits, drift, out>>
+vars == <<tid, l, S, fails, wits, drift, obs, out>>
 
 Tr == Traces[tid]
 
@@ -61,15 +62,18 @@ TraceInit ==
     /\ fails = {}
     /\ wits = {}
     /\ drift = {}
+    /\ obs = Rt0(Traces[1].cfg)
     /\ out = <<>>
 
 LoggedState(j) == IF j = 0 THEN Tr.init ELSE Tr.events[j]
 
-Verdict ==
-    [tid |-> Tr.tid, n |-> l, outcome |-> Tr.outcome, fails |-> fails, wits |-> wits, drift |-> drift]
-
 AddFails(old, new, j) ==
     old \cup {<<c, j>> : c \in {d \in new : ~\E p \in old : p[1] = d}}
+
+Verdict ==
+    [tid |-> Tr.tid, n |-> l, outcome |-> Tr.outcome,
+     fails |-> AddFails(fails, F_C14_final(Tr.cfg, LoggedState(l), Tr.outcome), l),
+     wits |-> wits, drift |-> drift]
 
 \* initial state of a trace: invariants judged on it, and compared with the spec's Init
 InitCheck ==
@@ -94,7 +98,7 @@ StepEvent ==
            succ == IF enabled THEN ExecEvent(Sx, a) ELSE {}
            match == {T \in succ : DiffOf(T, e) = {}}
            i0 == IF l = 0 THEN InitCheck ELSE [f |-> {}, d |-> {}]
-           newfails == StepFails(cfg, pre, e) \cup InvFails(cfg, e)
+           newfails == StepFails(cfg, pre, e, obs) \cup InvFails(cfg, e)
            dr == IF ~enabled THEN {<<l + 1, "not-enabled", {e.ev.kind}>>}
                  ELSE IF succ = {} THEN {<<l + 1, "no-successor", {e.ev.kind}>>}
                  ELSE IF match # {} THEN {}
@@ -107,6 +111,7 @@ StepEvent ==
           /\ wits' = wits \cup Witnesses(cfg, pre, e)
           /\ drift' = IF Cardinality(drift) < 3 THEN drift \cup i0.d \cup dr ELSE drift
           /\ S' = FromLog(e, cfg, rt2)
+          /\ obs' = RtAfter(cfg, e, obs)
     /\ l' = l + 1
     /\ UNCHANGED <<tid, out>>
 
@@ -120,8 +125,9 @@ NextTrace ==
     /\ wits' = {}
     /\ drift' = {}
     /\ IF tid < NT
-       THEN S' = FromLog(Traces[tid + 1].init, Traces[tid + 1].cfg, Rt0(Traces[tid + 1].cfg))
-       ELSE S' = S /\ ndJsonSerialize(IOEnv.OUT_FILE, out')
+       THEN /\ S' = FromLog(Traces[tid + 1].init, Traces[tid + 1].cfg, Rt0(Traces[tid + 1].cfg))
+            /\ obs' = Rt0(Traces[tid + 1].cfg)
+       ELSE S' = S /\ obs' = obs /\ ndJsonSerialize(IOEnv.OUT_FILE, out')
 
 TraceNext == StepEvent \/ NextTrace
 
